@@ -904,3 +904,187 @@ Proof.
   match goal with |- context [if ?c then _ else _] => replace c with true by (symmetry; apply Z.ltb_lt; exact Hneg) end.
   eexists. split; [reflexivity|]. cbn. repeat split; reflexivity.
 Qed.
+
+(* =====================================================================================
+   Everything outside the seven known-finding shapes
+   ===================================================================================== *)
+Lemma upto_lf_nonempty l : l <> [] -> upto_lf l <> [].
+Proof.
+  intros H. unfold upto_lf. destruct (index_of LF l); [|exact H].
+  destruct l; [congruence|cbn; discriminate].
+Qed.
+Lemma drop_upto_shorter l : l <> [] -> (length (drop (zlen (upto_lf l)) l) < length l)%nat.
+Proof.
+  intros H. pose proof (zlen_pos _ (upto_lf_nonempty l H)) as Hp. pose proof (zlen_pos _ H) as Hl.
+  pose proof (zlen_drop (zlen (upto_lf l)) l ltac:(lia)) as Hd. unfold zlen in *. lia.
+Qed.
+Lemma lines_of_fuel : forall k k' l, (length l < k)%nat -> (length l < k')%nat ->
+  lines_of k l = lines_of k' l.
+Proof.
+  induction k as [|k IH]; intros k' l H1 H2; [lia|]. destruct k' as [|k']; [lia|].
+  cbn [lines_of]. destruct (is_nil l) eqn:En; [reflexivity|]. apply is_nil_false in En.
+  pose proof (drop_upto_shorter l En). f_equal. apply IH; lia.
+Qed.
+
+Section Readlines.
+  Variable c : list Z.
+  Variable app : bool.
+  Notation P := (post srv sRem (sInv2 c app)).
+
+  Lemma post_trans (f f1 f2 : sfile) a b : P f f1 a -> P f1 f2 b -> P f f2 (a ++ b).
+  Proof.
+    intros (A1 & A2 & A3 & A4 & A5) (B1 & B2 & B3 & B4 & B5). unfold post.
+    split; [rewrite A1, B1; now rewrite app_assoc|]. split; [exact B2|].
+    split; [eapply same_cfg_trans; eassumption|]. split; [rewrite B4, A4, zlen_app; clia|].
+    rewrite B5. exact A5.
+  Qed.
+
+  Lemma readlines_srv fuel : forall lfuel (f : sfile) count,
+    inv srv (sInv2 c app) f -> (length c < fuel)%nat -> (length (Lf f) < lfuel)%nat ->
+    0 < bufsize f -> closed f = false -> fl_read f = true ->
+    exists f', readlines_loop s_read lfuel fuel None count f = (Ok (lines_of lfuel (Lf f)), f') /\
+               P f f' (Lf f).
+  Proof.
+    induction lfuel as [|k IH]; intros f count Hi Hf Hl Hb Hc Hr; [lia|].
+    assert (Hfo : fuel_ok srv sRem fuel f).
+    { unfold fuel_ok, RemOf, sRem. destruct Hi as [[Hcc _] _]. rewrite Hcc, drop_skipn, skipn_length. lia. }
+    cbn [readlines_loop lines_of].
+    destruct (readline_spec srv s_read sRem _ (s_read_spec2 c app) fuel f None Hi Hfo Hb Hc Hr)
+      as (f1 & E & P1).
+    rewrite E. fold (Lf f) in *. change (line_spec None (Lf f)) with (upto_lf (Lf f)) in *.
+    destruct (is_nil (Lf f)) eqn:En.
+    - apply is_nil_true in En. rewrite En in *. change (upto_lf []) with (@nil Z) in *.
+      cbn [is_nil]. exists f1. split; [reflexivity|exact P1].
+    - apply is_nil_false in En. pose proof (upto_lf_nonempty _ En) as Hne.
+      set (line := upto_lf (Lf f)) in *.
+      replace (is_nil line) with false by (symmetry; now apply is_nil_false).
+      pose proof P1 as (Q1 & Q2 & Q3 & Q4 & Q5). fold (Lf f) in Q1. fold (Lf f1) in Q1.
+      destruct (app_take_inv _ _ _ Q1) as [_ HL1].
+      destruct Q3 as (C1 & C2 & C3 & C4 & C5 & C6 & C7 & C8 & C9).
+      assert (Hl1 : (length (Lf f1) < k)%nat).
+      { rewrite HL1. pose proof (drop_upto_shorter _ En). fold line in H. clia. }
+      destruct (IH f1 (count + zlen line) Q2 Hf Hl1 ltac:(rewrite C8; exact Hb)
+                  ltac:(rewrite C9; exact Hc) ltac:(rewrite C3; exact Hr)) as (f2 & E2 & P2).
+      rewrite E2. exists f2. split; [rewrite HL1; reflexivity|].
+      assert (Hgoal : P f f2 (line ++ Lf f1)) by (eapply post_trans; eassumption).
+      rewrite <- Q1 in Hgoal. exact Hgoal.
+  Qed.
+End Readlines.
+
+(* the shapes partition the programs: a program shows a first finding shape, or none *)
+Lemma shape_partition m fuel f ops :
+  no_finding_shape m fuel f ops = true \/
+  exists k, first_finding m fuel f ops = Some k /\ no_finding_shape m fuel f ops = false.
+Proof.
+  unfold no_finding_shape. destruct (first_finding m fuel f ops) as [k|]; [right; eauto|left; reflexivity].
+Qed.
+
+(* one call that shows no finding shape (truncate is dealt with at the end of the run) *)
+Lemma step_outside fuel (f : sfile) r o :
+  winv f -> sim f r -> finding_at f o = None ->
+  (length (s_content (strm f)) + length (wbuf f)
+   + match o with FWrite d => length d | _ => O end < fuel)%nat ->
+  (forall n, o <> FTruncate n) ->
+  exists x f' r', sf_step fuel f o = (x, f') /\ ref_step r o = (x, r') /\ winv f' /\ sim f' r'.
+Proof.
+  intros W S Hk Hfuel Hnt.
+  assert (Hg : forall b, b = true -> guard fuel f o = (Nat.ltb (length (s_content (strm f)) + length (wbuf f)
+             + match o with FWrite d => length d | _ => O end) fuel && b) -> guard fuel f o = true).
+  { intros b -> ->. apply andb_true_iff. split; [now apply Nat.ltb_lt|reflexivity]. }
+  destruct o as [n|size| |d|off whence| |n|]; cbn [finding_at] in Hk.
+  - apply (step_disciplined fuel f r _ W S). apply (Hg (is_nil (wbuf f))); [|reflexivity].
+    destruct (is_nil (wbuf f)); [reflexivity|discriminate].
+  - apply (step_disciplined fuel f r _ W S). apply (Hg (is_nil (wbuf f))); [|reflexivity].
+    destruct (is_nil (wbuf f)); [reflexivity|discriminate].
+  - (* readlines *)
+    destruct (is_nil (wbuf f)) eqn:G; [|discriminate]. apply is_nil_true in G.
+    rewrite Nat.add_0_r in Hfuel.
+    pose proof S as (S1 & S2 & S3 & S4 & S5). destruct (view_nil f G) as [V1 V2].
+    cbn [sf_step ref_step]. unfold bf_readlines. rewrite S3.
+    destruct (fl_read f) eqn:Er; cbn [negb].
+    + set (c := s_content (strm f)).
+      assert (Hinv : inv srv (sInv2 c (fl_append f)) f).
+      { unfold inv, sInv2, sInv. split; [|apply W]. split; [reflexivity|]. split; [|apply W].
+        rewrite (w_real _ W). pose proof (w_pos0 _ W). pose proof (zlen_nonneg (rbuf f)). clia. }
+      assert (Hrest : rest r = Lf f) by (unfold rest; now rewrite S1, S2, V1, V2, (w_L _ W)).
+      assert (HLlen : (length (Lf f) < fuel)%nat).
+      { rewrite (w_L _ W), drop_skipn, skipn_length. clia. }
+      destruct (readlines_srv c (fl_append f) fuel fuel f 0 Hinv ltac:(unfold c; clia) HLlen
+                  (w_bufsize _ W) (w_closed _ W) Er) as (f' & E & P).
+      rewrite E, Hrest. rewrite (lines_of_fuel (Datatypes.S (length (Lf f))) fuel (Lf f)) by lia.
+      destruct (post_winv f f' r (Lf f) c W S G eq_refl P) as [W' S'].
+      eexists _, f', _. split; [reflexivity|]. split; [reflexivity|]. split; assumption.
+    + destruct fuel as [|k]; [lia|]. cbn [readlines_loop]. unfold bf_readline.
+      rewrite (w_closed _ W), Er. cbn.
+      eexists _, _, _. split; [reflexivity|]. split; [reflexivity|]. split; assumption.
+  - apply (step_disciplined fuel f r _ W S). apply (Hg (is_nil (rbuf f))); [|reflexivity].
+    destruct (is_nil (rbuf f)); [reflexivity|discriminate].
+  - apply (step_disciplined fuel f r _ W S). apply (Hg true); reflexivity.
+  - apply (step_disciplined fuel f r _ W S). apply (Hg (is_nil (wbuf f))); [|reflexivity].
+    destruct (is_nil (wbuf f)); [reflexivity|discriminate].
+  - exfalso. now apply (Hnt n).
+  - apply (step_disciplined fuel f r _ W S). apply (Hg true); reflexivity.
+Qed.
+
+Lemma run_outside fuel : forall ops (f : sfile) r,
+  winv f -> sim f r -> first_finding_from fuel f ops = None -> fuel_suffices fuel f ops = true ->
+  fst (sf_run fuel f ops) = fst (ref_run r ops) /\
+  final_content fuel (snd (sf_run fuel f ops)) = r_content (snd (ref_run r ops)).
+Proof.
+  induction ops as [|o ops IH]; intros f r W S Hk Hfu.
+  - cbn in *. split; [reflexivity|]. apply Nat.ltb_lt in Hfu.
+    rewrite (final_content_view fuel f W Hfu). symmetry. apply S.
+  - cbn [first_finding_from] in Hk. destruct (finding_at f o) as [k|] eqn:Ek; [discriminate|].
+    cbn [fuel_suffices] in Hfu. apply andb_true_iff in Hfu as [Hf1 Hf2]. apply Nat.ltb_lt in Hf1.
+    assert (Hgen : (forall n, o <> FTruncate n) ->
+              first_finding_from fuel (snd (sf_step fuel f o)) ops = None ->
+              fst (sf_run fuel f (o :: ops)) = fst (ref_run r (o :: ops)) /\
+              final_content fuel (snd (sf_run fuel f (o :: ops))) = r_content (snd (ref_run r (o :: ops)))).
+    { intros Hnt Hk'. destruct (step_outside fuel f r o W S Ek Hf1 Hnt) as (x & f1 & r1 & E1 & E2 & W1 & S1).
+      cbn [sf_run ref_run]. rewrite E1, E2. rewrite E1 in Hk', Hf2. cbn [snd] in Hk', Hf2.
+      destruct (IH f1 r1 W1 S1 Hk' Hf2) as [H1 H2].
+      destruct (sf_run fuel f1 ops) as [xs f2]. destruct (ref_run r1 ops) as [ys r2]. cbn in *.
+      split; [now f_equal|exact H2]. }
+    destruct o as [n|size| |d|off whence| |n|]; try (apply Hgen; [intros; discriminate|exact Hk]).
+    (* truncate: necessarily the last call *)
+    destruct ops as [|o2 ops']; [|discriminate Hk].
+    cbn [finding_at] in Ek. destruct (fl_write f) eqn:Hwr; cbn [negb] in Ek; [|discriminate].
+    destruct (is_nil (wbuf f)) eqn:Hwb; [|discriminate]. apply is_nil_true in Hwb.
+    destruct S as (S1 & S2 & S3 & S4 & S5). destruct (view_nil f Hwb) as [V1 V2].
+    assert (Hw : forall g : sfile, write_all s_write fuel g [] = Some g) by (intros; destruct fuel; reflexivity).
+    cbn [sf_run ref_run sf_step ref_step]. unfold sf_truncate. rewrite S4, Hwr. cbn [negb orb].
+    destruct (n <? 0); cbn [fst snd].
+    + split; [reflexivity|]. unfold final_content, bf_close, bf_flush. rewrite Hwb, Hw. cbn.
+      rewrite S1, V1. reflexivity.
+    + split; [reflexivity|]. unfold final_content, bf_close, bf_flush. cbn [wbuf upd_rd]. rewrite Hwb, Hw.
+      cbn. rewrite S1, V1. reflexivity.
+Qed.
+
+Lemma refines_outside_findings :
+  forall (m : fmode) (bufsz : Z) (file : option (list Z)) (ops : list fop) (fuel : nat)
+         (f0 : sfile) (r0 : rfile),
+    sf_open m bufsz file = Some f0 -> ref_open m file = Some r0 ->
+    no_finding_shape m fuel f0 ops = true -> fuel_suffices fuel f0 ops = true ->
+    fst (sf_run fuel f0 ops) = fst (ref_run r0 ops) /\
+    final_content fuel (snd (sf_run fuel f0 ops)) = r_content (snd (ref_run r0 ops)).
+Proof.
+  intros m bufsz file ops fuel f0 r0 Hs Hr Hn Hf.
+  unfold no_finding_shape, first_finding in Hn.
+  assert (Hm : m <> Mxbare) by (intros ->; discriminate Hn).
+  destruct (open_winv _ _ _ _ _ Hs Hr Hm) as [W S].
+  apply (run_outside fuel ops f0 r0 W S); [|exact Hf].
+  destruct m; try congruence; destruct (first_finding_from fuel f0 ops); congruence.
+Qed.
+
+(* each _refuted witness shows exactly the finding shape it is named after *)
+Definition shape_of (m : fmode) (bufsz : Z) (file : option (list Z)) (ops : list fop) : option finding :=
+  match sf_open m bufsz file with Some f0 => first_finding m 100 f0 ops | None => None end.
+Lemma refuted_shapes :
+  shape_of Mrp 8 (Some [10;10;121;10;121]) [FWrite [97;10;97;97]; FReadline None] = Some KReadPending /\
+  shape_of Mw 65536 (Some []) [FWrite [97;98;99]; FTell] = Some KTellPending /\
+  shape_of Mrp 0 (Some [97;10;98;10;99]) [FReadline None; FWrite [88]] = Some KWriteAfterRead /\
+  shape_of Mw 64 (Some []) [FWrite [97;98]; FTruncate 0] = Some KTruncPending /\
+  shape_of Mr 0 (Some [97;98;99]) [FTruncate 1] = Some KTruncReadOnly /\
+  shape_of Ma 0 (Some []) [FWrite [97;98]; FTruncate 0; FWrite [99]; FTell] = Some KStaleAfterTrunc /\
+  shape_of Mxbare 0 None [FWrite [97]] = Some KBareX.
+Proof. vm_compute. repeat split. Qed.
